@@ -1,6 +1,7 @@
 import Witverif.Proofs.AbiLower6
 import Witverif.Proofs.AbiLift3
 import Witverif.Proofs.AbiStore4
+import Witverif.Proofs.AbiLoad
 /-!
 # C01 — Shared ABI generator encodes and decodes every WIT value per the spec
 
@@ -12,9 +13,10 @@ public entry point is compared, exactly, with the model's (`abi-trace` vs `m_abi
 
 Proved here for *all* memory-free types (any nesting of records, tuples, flags with any number of
 members, enums, variants/options/results with every slot join, fixed-length lists, all scalars and
-handles), all values, both pointer widths.  Strings, lists and maps (types whose encoding needs
-linear memory) and lifting from memory are covered by the correspondence and the monitors on
-the real streams; their theorems are listed as partial obligations in the evidence.
+handles), all values, both pointer widths; lifting from memory (`load_correct`) is proved for *every*
+type, strings, lists and maps included.  Lowering strings, lists and maps (which allocates) is
+covered by the correspondence and the monitors on the real streams; those theorems are listed as
+partial obligations in the evidence.
 -/
 namespace Witverif.Props.C01
 open Witverif.Abi
@@ -84,6 +86,31 @@ theorem store_correct (p : Nat) (hp : p = 4 ∨ p = 8) (c : Cfg) (t : Ty) (v : V
     (lvl : Nat) (x a : Expr) (off : Off) (ss : List Stmt) (h : store c lvl t x a off = .ok ss) :
     Writes p lvl x a v ss (fun addr st => Spec.store p t v (addr + off.at p) st) :=
   store_sound p hp c v t hm hv lvl x a off ss h
+
+/-- **Lifting from memory is the spec's `load`, for every type.**  For every WIT type `t` (strings,
+lists — canonical or element-wise —, maps, records, tuples, flags of any size, enums, variants,
+options, results, fixed-length lists, handles, all scalars, any nesting), both pointer widths, any
+backend configuration, any memory `m` whatsoever (hosts may have written anything), any address
+operand `a` denoting `addr` and any static offset: the expression `read_from_memory` builds evaluates
+to exactly `Spec.load` at `addr + offset`, and is stuck (`none` = trap) exactly when the spec traps
+(invalid discriminant, invalid char, misaligned list pointer).  In particular field offsets,
+discriminant width, payload offset, flag words, list element stride and fixed-length list element
+offsets are the canonical ones. -/
+theorem load_correct (p : Nat) (hp : p = 4 ∨ p = 8) (c : Cfg) (t : Ty)
+    (lvl : Nat) (a : Expr) (off : Off) (env : Env) (m : Spec.Mem) (addr : Nat) (e : Expr)
+    (hp' : env.p = p) (hl : env.frames.length = lvl + 1) (ha : AddrStable env m a addr)
+    (h : load c lvl t a off = .ok e) :
+    ∀ ls, eval (env.withLets ls) m e = (Spec.load p m t (addr + off.at p)).map MV.v :=
+  load_sound p hp c t lvl a off env m addr e hp' hl ha h
+
+/-- Non-vacuity of `load_correct`: `record { a: u8, b: list<u32, 2> }` read through the return
+pointer at address 16 of a memory holding bytes `7 | pad | 1 0 0 0 | 2 0 0 0`. -/
+example :
+    ∃ e, load ⟨fun _ => false, true⟩ 0 (.record [.u8, .flist .u32 2]) (.rp 0 (Off.bytes 12) (Off.bytes 4)) Off.zero = .ok e ∧
+      AddrStable { p := 4, rps := [16], frames := [{}] } [(16, 7), (20, 1), (24, 2)] (.rp 0 (Off.bytes 12) (Off.bytes 4)) 16 ∧
+      eval { p := 4, rps := [16], frames := [{}] } [(16, 7), (20, 1), (24, 2)] e
+        = some (.v (.record [.int 7, .list [.int 1, .int 2]])) :=
+  ⟨_, rfl, by intro fs ls; rfl, rfl⟩
 
 /-- The spec's flat lowering of a memory-free value is well-formed: it leaves the state alone and
 yields `flatten t` many core values of the right types, each within its width. -/
